@@ -107,6 +107,7 @@ let () =
             (fun k0 tok ->
               let k = k0 + 1 in
               let ret = ref 1 in
+              let defined = ref true in
               (match tok.[0] with
               | 'F' ->
                   let b = z_of_string (rest tok) in
@@ -119,12 +120,14 @@ let () =
                   | _ -> failwith "drv_C11: bad R")
               | 'A' ->
                   let qm = getq (rest tok) in
+                  defined := gm_augment_defined fops qm !g;
                   let r, g' = gm_augment fops qm !g in
                   (* gm_apply (GAugment q) = snd (gm_augment q) by definition *)
                   ret := if r then 1 else 0;
                   g := g'
               | _ -> failwith ("drv_C11: bad op " ^ tok));
               dump_gm k !g !ret;
+              Caseio.out_int (Printf.sprintf "%d.defined" k) (if !defined then 1 else 0);
               dump_acc k !g;
               if gauss then dump_gauss_acc k !g)
             ops
@@ -140,6 +143,8 @@ let () =
             (fun k0 tok ->
               let k = k0 + 1 in
               let ret = ref 1 in
+              let defined = ref true in
+              let concat rhs = defined := ps_concat_defined fops junk rhs !p; rhs in
               (match tok.[0] with
               | 'F' -> p := ps_apply fops junk (PFill (z_of_string (rest tok))) !p
               | 'C' | 'S' | 'M' -> p := ps_apply fops junk PCopy !p
@@ -149,15 +154,17 @@ let () =
                   | _ -> failwith "drv_C11: bad R")
               | 'A' ->
                   let qm = getq (rest tok) in
+                  defined := gm_augment_defined fops qm !p.base;
                   let r, p' = ps_augment fops qm !p in
                   ret := if r then 1 else 0;
                   p := p'
-              | 'P' -> p := ps_apply fops junk (PConcat (fresh (rest tok))) !p
-              | 'Q' -> p := ps_apply fops junk (PPlus (fresh (rest tok))) !p
-              | 'D' -> p := ps_apply fops junk (PConcat (ps_apply fops junk PCopy !p)) !p
-              | 'E' -> p := ps_apply fops junk (PPlus !p) !p
+              | 'P' -> p := ps_apply fops junk (PConcat (concat (fresh (rest tok)))) !p
+              | 'Q' -> p := ps_apply fops junk (PPlus (concat (fresh (rest tok)))) !p
+              | 'D' -> p := ps_apply fops junk (PConcat (concat (ps_apply fops junk PCopy !p))) !p
+              | 'E' -> p := ps_apply fops junk (PPlus (concat !p)) !p
               | _ -> failwith ("drv_C11: bad op " ^ tok));
-              dump_ps k !p !ret)
+              dump_ps k !p !ret;
+              Caseio.out_int (Printf.sprintf "%d.defined" k) (if !defined then 1 else 0))
             ops
       | k -> failwith ("drv_C11: unknown kind " ^ k));
       Caseio.out_end ())
